@@ -1,0 +1,8 @@
+//go:build verif
+
+package jpeg
+
+// Verification hooks (build tag verif): exported views of unexported identifiers.
+
+// VerifMarkerTypeString is markerType(v).String().
+func VerifMarkerTypeString(v uint8) string { return markerType(v).String() }
